@@ -91,7 +91,85 @@ def _guard_tests(fn: ast.AST, target: ast.AST) -> list[str]:
     return out
 
 
+READ_BUILTINS = {'len', 'iter', 'list', 'dict', 'sorted', 'set', 'tuple', 'bool', 'repr', 'str', 'frozenset', 'enumerate', 'reversed'}
+LIST_ONLY_MUTATORS = {'append', 'extend', 'insert', 'remove', 'sort', 'reverse'}
+LIST_OR_DICT_MUTATORS = {'pop', 'clear', 'update', 'setdefault', 'popitem', '__setitem__', '__delitem__'}
+FGD_MODULES = {'fgd.py', '_engine_db.py', '_fgd_helpers.py', '_class_resources.py'}   # `.entities` is the FGD's dict there
+
+
+def _callee_name(call: ast.Call) -> str:
+    f = call.func
+    if isinstance(f, ast.Name):
+        return f.id
+    if isinstance(f, ast.Attribute):
+        return f.attr
+    return '?'
+
+
+def _key_dict_escapes(qual: str, fn: ast.AST, rel: str, out: list) -> None:
+    """Every occurrence of `X._keys` that is neither a recognised read nor one of the writer forms handled by the
+    main loop lets the dict escape (alias, argument, return value): record (function, how)."""
+    parent: dict[int, ast.AST] = {}
+    for n in ast.walk(fn):
+        for ch in ast.iter_child_nodes(n):
+            parent[id(ch)] = n
+    for n in ast.walk(fn):
+        if not _is_attr(n, '_keys'):
+            continue
+        p = parent.get(id(n))
+        if isinstance(p, ast.Subscript) and p.value is n:
+            continue                                    # self._keys[k]  load / store / del
+        if isinstance(p, ast.Attribute) and p.value is n:
+            pp = parent.get(id(p))
+            if isinstance(pp, ast.Call) and pp.func is p:
+                continue                                # self._keys.meth(...)  classified by the main loop
+            out.append((qual, f'bound-method:{p.attr}', rel, n.lineno))
+            continue
+        if isinstance(p, (ast.Assign, ast.AnnAssign, ast.AugAssign)) and (n in getattr(p, 'targets', []) or getattr(p, 'target', None) is n):
+            continue                                    # self._keys = ...  recorded as 'assign'
+        if isinstance(p, (ast.For, ast.comprehension)) and p.iter is n:
+            continue                                    # for k in self._keys
+        if isinstance(p, ast.Compare) and n in p.comparators and all(isinstance(o, (ast.In, ast.NotIn)) for o in p.ops):
+            continue                                    # k in self._keys
+        if isinstance(p, ast.Call) and n in p.args and isinstance(p.func, ast.Name) and p.func.id in READ_BUILTINS:
+            continue                                    # len(self._keys) ...
+        if isinstance(p, ast.Return):
+            out.append((qual, 'return', rel, n.lineno))
+        elif isinstance(p, ast.keyword):
+            pp = parent.get(id(p))
+            out.append((qual, f'arg:{_callee_name(pp) if isinstance(pp, ast.Call) else "?"}', rel, n.lineno))
+        elif isinstance(p, ast.Call) and n in p.args:
+            out.append((qual, f'arg:{_callee_name(p)}', rel, n.lineno))
+        elif isinstance(p, (ast.Assign, ast.AnnAssign)):
+            out.append((qual, 'alias', rel, n.lineno))
+        else:
+            out.append((qual, f'other:{type(p).__name__}', rel, n.lineno))
+
+
+def _entity_list_writers(qual: str, fn: ast.AST, rel: str, out_list: list, out_spawn: list) -> None:
+    """Mutations of a `.entities` list and assignments to `.spawn`."""
+    for n in ast.walk(fn):
+        if isinstance(n, ast.Call) and isinstance(n.func, ast.Attribute) and _is_attr(n.func.value, 'entities'):
+            m = n.func.attr
+            if m in LIST_ONLY_MUTATORS or (m in LIST_OR_DICT_MUTATORS and rel not in FGD_MODULES):
+                out_list.append((qual, m, rel, n.lineno))
+        if isinstance(n, (ast.Assign, ast.AugAssign, ast.AnnAssign, ast.Delete)):
+            tgts = n.targets if isinstance(n, (ast.Assign, ast.Delete)) else [n.target]
+            for t in tgts:
+                for sub in ast.walk(t):
+                    if rel not in FGD_MODULES:
+                        if isinstance(sub, ast.Subscript) and _is_attr(sub.value, 'entities'):
+                            out_list.append((qual, 'del' if isinstance(n, ast.Delete) else 'store', rel, n.lineno))
+                        elif _is_attr(sub, 'entities') and sub is t:
+                            out_list.append((qual, 'augassign' if isinstance(n, ast.AugAssign) else 'assign', rel, n.lineno))
+                    if rel == 'vmf.py' and _is_attr(sub, 'spawn') and sub is t:
+                        out_spawn.append((qual, 'assign', rel, n.lineno))
+
+
 def translate() -> tuple[str, dict]:
+    key_escapes: list[tuple[str, str, str, int]] = []
+    ent_list_writers: list[tuple[str, str, str, int]] = []
+    spawn_writers: list[tuple[str, str, str, int]] = []
     key_writers: list[tuple[str, str, str, int]] = []     # func, how, file, line
     index_sites: list[tuple[str, str, str, str, bool, str, int]] = []
     digests: dict[str, str] = {}
@@ -101,9 +179,15 @@ def translate() -> tuple[str, dict]:
             tree = ast.parse(path.read_text(encoding='utf8'))
         except SyntaxError as e:
             raise TranslateError(f'{rel}: {e}') from None
+        # reflective access (getattr(x, '_keys'), vars(x)['by_class'], ...) would bypass the census: fail closed
+        for n in ast.walk(tree):
+            if isinstance(n, ast.Constant) and n.value in ('_keys', 'by_class', 'by_target'):
+                raise TranslateError(f'{rel}:{n.lineno}: the name {n.value!r} appears as a string (reflective access?)')
         for qual, cls, fn in _functions(tree):
             if rel == 'vmf.py' and qual in ('VMF.search', 'Entity.make_unique', 'CopySet.__iter__', '_remove_copyset'):
                 digests[qual] = ast_digest(fn)
+            _key_dict_escapes(qual, fn, rel, key_escapes)
+            _entity_list_writers(qual, fn, rel, ent_list_writers, spawn_writers)
             for node in ast.walk(fn):
                 # ---- Entity._keys writers
                 if isinstance(node, (ast.Assign, ast.AugAssign, ast.AnnAssign, ast.Delete)):
@@ -160,6 +244,17 @@ def translate() -> tuple[str, dict]:
         'Definition key_writers : list (string * string) := [',
         ';\n'.join(f'  ("{f}", "{h}")' for f, h in writers),
         '].',
+        '(* every place where an Entity._keys dict escapes (returned, passed on, aliased): function, how *)',
+        'Definition key_escapes : list (string * string) := [',
+        ';\n'.join(f'  ("{f}", "{h}")' for f, h in sorted({(f, h) for f, h, _, _ in key_escapes})),
+        '].',
+        '(* every function mutating a VMF.entities list / assigning VMF.spawn *)',
+        'Definition entity_list_writers : list (string * string) := [',
+        ';\n'.join(f'  ("{f}", "{h}")' for f, h in sorted({(f, h) for f, h, _, _ in ent_list_writers})),
+        '].',
+        'Definition spawn_writers : list (string * string) := [',
+        ';\n'.join(f'  ("{f}", "{h}")' for f, h in sorted({(f, h) for f, h, _, _ in spawn_writers})),
+        '].',
         '(* every update of by_class / by_target: function, index, is_add, class of the key expression, guarded *)',
         'Definition index_sites : list (string * string * bool * keyclass * bool) := [',
         ';\n'.join(f'  ("{f}", "{ix}", {"true" if k == "add" else "false"}, {kc}, {"true" if g else "false"})'
@@ -167,8 +262,11 @@ def translate() -> tuple[str, dict]:
         '].',
         '',
     ]
+    if not ent_list_writers or not spawn_writers:
+        raise TranslateError('no VMF.entities writer / VMF.spawn assignment found: vmf.py not recognised')
     side = {'key_writers': [list(k) for k in key_writers], 'index_sites': [list(s) for s in index_sites],
-            'digests': digests}
+            'key_escapes': [list(k) for k in key_escapes], 'entity_list_writers': [list(k) for k in ent_list_writers],
+            'spawn_writers': [list(k) for k in spawn_writers], 'digests': digests}
     return '\n'.join(lines), side
 
 
